@@ -297,7 +297,9 @@ def rule_chunk_partition(rep: Report, ix: Index) -> None:
     )
     if not lin_form and isinstance(t, sp.Basic):
         # (evaluated on the syntax tree, which keeps the association of the floating-point operations)
-        witness = _partition_witness_ast(f, num_name, chunks_name, bound=96)
+        import os as _os
+
+        witness = _partition_witness_ast(f, num_name, chunks_name, bound=256 if _os.environ.get("PDELINT_TIER") == "thorough" else 96)
         if witness is not None:
             n0, c0, sizes, why = witness
             rep.oblige("partition:endpoints-exact=>sum(sizes)=num", False, {"witness": [n0, c0], "sizes": sizes})
